@@ -45,6 +45,15 @@ def _sha(paths, extra):
 
 
 def _inc(R):
+    # scratch copies of the repository (git worktrees, snapshots) lack the generated, git-ignored configure results;
+    # daemon/proxyd.c includes "../site_def.h", so the files must be in the tree itself
+    if R != '/repo':
+        for gen in ('config.h', 'site_def.h'):
+            if not os.path.exists(os.path.join(R, gen)):
+                try:
+                    shutil.copy(os.path.join(ROOT, 'support', gen), os.path.join(R, gen))
+                except OSError:
+                    pass
     fl = ['-I' + R, '-I' + os.path.join(R, 'src')]
     if not os.path.exists(os.path.join(R, 'config.h')) or not os.path.exists(os.path.join(R, 'site_def.h')):
         fl.append('-I' + os.path.join(ROOT, 'support'))
